@@ -75,6 +75,7 @@ def conc (s : S) (sched : List Nat) (invs : List Inv) : String :=
 def step (s : S) : List String → S × String
   | ["reset"] => ({}, "ok")
   | ["seed", k, v] => ({ s with ledger := setKV s.ledger k v }, "ok")
+  | ["age", _] => (s, "ok")      -- the process has served that many goroutines before: irrelevant to the model
   | "conc" :: sch :: invs =>
     match invs.mapM parseInv with
     | none => (s, "bad-op")
